@@ -30,6 +30,9 @@ def plan(tier, seed):
         for i in range(8):
             runs.append((f"gen{i}", ["gen", str(seed * 1000 + 100 + i), "2500", "40", "1"], {}))
         runs.append(("small", ["gen", str(seed * 1000 + 200), "5000", "6", "1"], {}))
+        # the process-wide rayon pool smaller than every dispatcher pool
+        runs.append(("global1", ["gen", str(seed * 1000 + 400), "1500", "12", "1"], {"H_GLOBAL_POOL": "1"}))
+        runs.append(("global2", ["gen", str(seed * 1000 + 401), "1500", "12", "1"], {"H_GLOBAL_POOL": "2"}))
         runs.append(("wide", ["gen", str(seed * 1000 + 300), "500", "40", "1"], {"H_DISPATCH_SPIN": "400"}))
     else:
         for i in range(16):
@@ -40,6 +43,8 @@ def plan(tier, seed):
             runs.append((f"small{i}", ["gen", str(seed * 1000 + 200 + i), "25000", "6", "1"], {}))
         for i in range(8):
             runs.append((f"wide{i}", ["gen", str(seed * 1000 + 300 + i), "3000", "40", "1"], {"H_DISPATCH_SPIN": "400"}))
+        for i, n in enumerate(["1", "2", "3", "1", "2", "5"]):
+            runs.append((f"global{n}-{i}", ["gen", str(seed * 1000 + 400 + i), "6000", "20", "1"], {"H_GLOBAL_POOL": n}))
     return runs
 
 
@@ -122,14 +127,19 @@ RUNTIME = ("panic-escaped-dispatch", "overlap-observed", "system-not-run-exactly
            "dependency-order-violated-at-run-time", "run-count-list-length")
 
 
-def shrink(ops, why):
+def genv(r):
+    """The part of a run's environment that belongs to the input (and therefore into the replay)."""
+    return {k: v for k, v in (r.get("env") or {}).items() if k == "H_GLOBAL_POOL"}
+
+
+def shrink(ops, why, env=None):
     """ddmin over the graph lines; the trailer (build + runs) is kept."""
     graph = [l for l in ops if is_graph_line(l)]
     if not graph:
         return ops
     runtime = why in RUNTIME
     def still(g):
-        rr = run_script(g + TRAILER, STRESS_ROUNDS if runtime else 1, WIDE if runtime else None)
+        rr = run_script(g + TRAILER, STRESS_ROUNDS if runtime else 1, dict(WIDE if runtime else {}, **(env or {})))
         return any(reason(m) == why for m in rr["mon"])
     if not still(graph):
         # not reproducible with the standard trailer: keep the original script
@@ -138,13 +148,13 @@ def shrink(ops, why):
     return normalise(graph + TRAILER)
 
 
-def exhibit(ops):
+def exhibit(ops, env=None):
     """Tries to make the real dispatcher misbehave on a graph: returns the MON line of a run-time failure."""
     graph = [l for l in ops if is_graph_line(l)]
     if not graph:
         return None
     # no `build` line: the per-case monitor reports its first rejection only, and here the run-time one is wanted
-    rr = run_script(graph + [l for l in TRAILER if l != "build"], 4 * STRESS_ROUNDS, WIDE)
+    rr = run_script(graph + [l for l in TRAILER if l != "build"], 4 * STRESS_ROUNDS, dict(WIDE, **(env or {})))
     for m in rr["mon"]:
         if reason(m) in RUNTIME:
             return m
@@ -186,10 +196,10 @@ def report_failures(tier, seed, results):
                     ops = ["table"]
                     extra = []
                 else:
-                    ops = shrink(ops, why)
+                    ops = shrink(ops, why, genv(r))
                     extra = []
                     if why not in RUNTIME:
-                        ex = exhibit(ops)
+                        ex = exhibit(ops, genv(r))
                         extra = [f"the same graph dispatched on real rayon pools: {ex}" if ex else
                                  "stress runs of this graph on real rayon pools did not exhibit an overlap or panic (layout-level violation only)"]
                 canon = why + ":" + vlib.canonical([l for l in ops if is_graph_line(l) or l == "table"])
@@ -203,6 +213,7 @@ def report_failures(tier, seed, results):
                 path = vlib.write_replay(PROP, f"{seed}-{len(seen)}",
                                          [f"property {PROP}: {WHAT}",
                                           f"monitor verdict on the implementation's own reports: {m}"] + extra +
+                                         [f"env {k}={v}" for k, v in genv(r).items()] +
                                          [f"found by: h_dispatch {' '.join(r['tail'])} (case {cid}); graph minimised by ddmin over its system lines",
                                           f"replay: bin/check {PROP} --replay <this file>   (run lines are repeated up to {STRESS_ROUNDS} times)"],
                                          ops, "dispatch")
@@ -220,7 +231,7 @@ def report_failures(tier, seed, results):
                 continue
             seen.add(canon)
             found = None
-            ex = exhibit(ops)
+            ex = exhibit(ops, genv(r))
             if ex:
                 found = (ops, ex)
             elif not searched:
@@ -228,10 +239,11 @@ def report_failures(tier, seed, results):
                 found = search_from_diff(tier, seed)
             if found:
                 fops, m = found
-                fops = shrink(fops, reason(m))
+                fops = shrink(fops, reason(m), genv(r) if ex else None)
                 path = vlib.write_replay(PROP, f"{seed}-{len(seen)}",
                                          [f"property {PROP}: {WHAT}", f"correspondence broke: {d}",
-                                          f"directed search (stress dispatching) found: {m}"], fops, "dispatch")
+                                          f"directed search (stress dispatching) found: {m}"] +
+                                         ([f"env {k}={v}" for k, v in genv(r).items()] if ex else []), fops, "dispatch")
                 print(f"VIOLATION property={PROP} replay={path}")
             else:
                 path = vlib.write_replay(PROP, f"corr-{seed}-{len(seen)}",
@@ -357,7 +369,12 @@ def replay(prop, path):
     if not ok:
         print(blog); return 2
     keep = os.path.join(vlib.TMP, f"dreplay-{os.getpid()}.txt")
-    lines, hrc, err = pipe(["stress", path, str(STRESS_ROUNDS)], WIDE, keep=keep)
+    env = dict(WIDE)
+    for l in open(path):
+        if l.startswith("# env ") and "=" in l:
+            k, v = l[6:].strip().split("=", 1)
+            env[k] = v
+    lines, hrc, err = pipe(["stress", path, str(STRESS_ROUNDS)], env, keep=keep)
     for l in open(keep):
         print("  " + l.rstrip())      # the implementation's transcript
     os.unlink(keep)
